@@ -9,7 +9,7 @@ CHECKS = {
          "trusts the reference codec written from the protocol description and bytes/tokio-util", "DESIGN.md §3 C03"),
 }
 CHECKS["C04"] = ("exploration", "property-based testing with a reference wire parser (proptest): generated schemes x generated API call sequences on the real client session over a recording in-memory transport; erase-padding equality",
-         "Generated padding schemes (everything the scheme parser accepts, sizes 1..2^63-1) and call sequences (incl. answers to a peer's keep-alive requests), also over transports that accept only short writes; after every call the recorded wire must parse under the reference codec and, with padding erased, equal the reference encoding of the submitted frames. Sampling.",
+         "Generated padding schemes (everything the scheme parser accepts, sizes 1..2^63-1) and call sequences (incl. answers to a peer's keep-alive requests), also over transports that accept only short writes or hold only a few hundred bytes in flight while a second writer (the answer to a keep-alive request) is active; after every call the recorded wire must parse under the reference codec and, with padding erased, equal the reference encoding of the submitted frames. Sampling.",
          "trusts the reference codec/scheme reader, tokio's paused clock and current-thread scheduler, the harness pipe", "DESIGN.md §3 C04")
 CHECKS["C05"] = ("exploration", "property-based testing against a nondeterministic reference acceptor for packet shapes (proptest)",
          "Generated satisfiable schemes and single-writer call sequences (local writes and answers to the peer's keep-alive requests) with payload sizes around the range bounds; each packet's logged write lengths must be explained by the reference acceptor for its line; preamble padding and server-side no-padding checked in separate families. Sampling.",
@@ -19,16 +19,16 @@ def _c(i, level, tech, text, note):
     CHECKS[i] = (level, tech, text, note, f"DESIGN.md §3 {i}")
 
 _c("C01", "exploration", "property-based testing (proptest) on real sessions over a harness-owned in-memory transport: position-keyed round trip, prefix invariant, virtual-time watchdog",
-   "1-4 streams between a real client and a real server session; generated chunk sizes around the 16-bit boundary, fragmentation, capacity, transports that stall for seconds and recover, padding scheme, write/read API, forced pre-emptions; every read is checked against position-keyed content, completion under a one-hour virtual watchdog; streams optionally ended by FIN or session close with late readers (nothing queued may be lost at the end). Plus end-to-end tunnels through SOCKS5 / HTTP CONNECT, real client, TLS, real server to a greeting+echo target on loopback. Sampling.",
+   "1-4 streams between a real client and a real server session; generated chunk sizes around the 16-bit boundary, fragmentation, capacity, transports that stall for seconds and recover, padding scheme, write/read API, forced pre-emptions; every read is checked against position-keyed content, completion under a one-hour virtual watchdog; streams optionally ended by FIN or session close with late readers (nothing queued may be lost at the end). Plus end-to-end tunnels through SOCKS5 / HTTP CONNECT, real client, TLS, real server to a greeting+echo target on loopback, with late readers and 12/24 MiB uploads against a target that does not read at first. Sampling.",
    "trusts tokio's paused clock and current-thread scheduler and the harness pipe; the server session is wired as handle_connection wires it")
 _c("C02", "exploration", "model-based property testing (proptest): generated frame histories from a scripted reference peer vs an id->instance model; instance-keyed payloads",
-   "Generated SYN/PSH/FIN/SYNACK histories over a small id pool (stray, stale, duplicate, reused ids) against a real session in either role (client role also with foreign frames still in flight while open_stream runs under forced pre-emptions), plus 2-8 concurrent streams between two real sessions; every byte is keyed by the stream instance it belongs to. Sampling.",
+   "Generated SYN/PSH/FIN/SYNACK histories over a small id pool (stray, stale, duplicate, reused ids) against a real session in either role (client role also with foreign frames still in flight while open_stream runs under forced pre-emptions; local sends on any instance judged at the scripted peer), plus 2-8 concurrent streams between two real sessions; every byte is keyed by the stream instance it belongs to. Sampling.",
    "trusts the reference codec and the instance model; frames still in flight when an id is opened are not counted as stray (they are let to be processed first)")
 _c("C06", "exploration", "property-based testing (proptest) of authenticate_client over a fragmenting reader with exhaustive small grids (256 bit flips, 32 prefixes, every truncation length) + end-to-end negatives against the real server on loopback + libFuzzer target auth_preamble",
-   "iff-predicate on acceptance, exact consumed-bytes count for every declared padding length (all 65536 in thorough), termination on EOF. End to end: a reference client over TLS sends a wrong / truncated / correct preamble (optionally followed by 6-65 s of silence) and then a complete valid session; a target connection, a stream or any application byte back is allowed iff the hash was right.",
+   "iff-predicate on acceptance, exact consumed-bytes count for every declared padding length (all 65536 in thorough), termination on EOF. End to end: a reference client over TLS sends a wrong / truncated / correct preamble (optionally followed by 6-65 s of silence; also against servers configured with passwords that have blanks around them, presenting hashes of related passwords) and then a complete valid session; a target connection, a stream or any application byte back is allowed iff the hash was right.",
    "trusts sha2, the harness pipe and the reference client; kernel loopback for the end-to-end family")
 _c("C08", "exploration", "property-based testing (proptest): scripted reference peer sends data+FIN back-to-back to a real session; history invariants (EOF after data, reverse direction alive, state released)",
-   "Generated per-stream frame lists followed by FIN in one transport write with generated fragmentation, late/early readers with tiny buffers, reverse traffic before/after the FIN, siblings; both roles. Sampling. Server side with a reference client that sends FIN (srv_fin: the target must see every byte and then end-of-stream, not a reset). End to end (Lab-S): who closes or half-closes first (application, target) with amounts in flight in both directions through SOCKS5 -> client -> server -> target; P2/P3 (all data before the end, reverse direction alive) are armed, P1 (EOF arrives) is the listed known finding.",
+   "Generated per-stream frame lists followed by FIN in one transport write with generated fragmentation, late/early readers with tiny buffers, reverse traffic before/after the FIN, siblings; both roles. Sampling. Server side with a reference client that sends FIN, also before the SYNACK (srv_fin: the target must see every byte and then end-of-stream, not a reset). End to end (Lab-S): who closes or half-closes first (application, target) with amounts in flight in both directions through SOCKS5 -> client -> server -> target; P2/P3 (all data before the end, reverse direction alive) are armed, P1 (EOF arrives) is the listed known finding.",
    "trusts reference codec, H4 table sizes, paused clock")
 _c("C09", "fault_enumeration", "fault enumeration over byte offsets of a recorded fault-free run + property-based sampling of scenario x cause x position x schedule (proptest), virtual-time watchdog",
    "Each cause (peer EOF, three read errors, write error at byte k, flush error, Alert, liveness timeout, owner close, hanging shutdown) is injected at offsets enumerated from the fault-free recording of the same scenario, in both roles, with blocked readers, pending opens and queued writers; release invariants judged after one virtual hour.",
@@ -53,7 +53,7 @@ _c("C18", "fault_enumeration", "enumeration of on-disk fault states (every trunc
    "prefixes ending inside the final PEM line may load or not; watcher/debounce not driven")
 
 _c("C07", "exploration", "property-based testing (proptest): round trip + differential against a reference SOCKS address codec (Lab-M), resolver histories against a fake DNS, end-to-end dial histories on loopback",
-   "Destinations of every address type and length through the real client encoder and the real server decoder (also each against the reference), resolver call histories with cache ageing, simultaneous first lookups, and request histories by name through the SOCKS5 and HTTP front-ends (CONNECT, origin-form + Host with another listener's URL in the query, absolute-form) to listeners on distinct loopback addresses/ports: the requested listener, and only it, must be dialled. Family `front`: any IPv4/IPv6 address, names of 1..255 bytes and any port through both front-ends and the real client in generated segmentations, the destination read by the reference server (nothing dialled).",
+   "Destinations of every address type and length through the real client encoder and the real server decoder (also each against the reference), resolver call histories with cache ageing and names whose DNS answer changes (entry-age model), simultaneous first lookups, and request histories by name through the SOCKS5 and HTTP front-ends (CONNECT, origin-form + Host with another listener's URL in the query, absolute-form) to listeners on distinct loopback addresses/ports: the requested listener, and only it, must be dialled. Family `front`: any IPv4/IPv6 address, names of 1..255 bytes and any port through both front-ends and the real client in generated segmentations, the destination read by the reference server (nothing dialled).",
    "fake DNS installed through the public set_custom_dns_servers; H7 ages the cache; kernel loopback for the dial family")
 _c("C16", "exploration", "property-based testing (proptest) of the real SOCKS5 listener on loopback against a reference model of RFC 1928; generated greetings/requests and TCP segmentations",
    "Generated greetings, requests (all commands, address types, versions) and segmentations against the real front-end -> client -> TLS -> server -> loopback targets, with a neighbour connection, names of every length 1..255 and arbitrary addresses/ports observed by the reference server, also with faults in the AnyTLS leg that must be answered with a failure code (family `front`), optionally a second connection holding an unfinished greeting throughout, and a fresh connection afterwards. Sampling; negatives are evaluated after the front-end replied or closed.",
